@@ -230,13 +230,27 @@ pub fn run_detached(seed: u64, yield_only: bool) -> Outcome {
                 }
                 #[cfg(feature = "cluster")]
                 if remote {
-                    let nested = if sp.chance(1, 3) { Some((c.clone(), tr.clone())) } else { None };
-                    tr.log(Ev::Call { client: s as u32, op: "send", arg: j });
-                    let r = c.send_message::<RMsg>(RMsg { client: s as u32, seq: j, nested });
-                    let res = match r {
-                        Ok(()) => 1,
-                        Err(MessagingErr::SendErr(back)) => (back.client == s as u32 && back.seq == j) as i64 - 1,
-                        Err(_) => -2,
+                    let res = if sp.chance(1, 3) {
+                        // the entry point the cluster uses to deliver a peer's bytes: already-serialized send
+                        let mut args = (s as u64).to_be_bytes().to_vec();
+                        args.extend(j.to_be_bytes());
+                        tr.log(Ev::Call { client: s as u32, op: "send", arg: j });
+                        match c.send_serialized(ractor::message::SerializedMessage::Cast { variant: "r".into(), args: args.clone(), metadata: None }) {
+                            Ok(()) => 1,
+                            Err(e) => match *e {
+                                MessagingErr::SendErr(ractor::message::SerializedMessage::Cast { args: back, .. }) => (back == args) as i64 - 1,
+                                _ => -2,
+                            },
+                        }
+                    } else {
+                        let nested = if sp.chance(1, 3) { Some((c.clone(), tr.clone())) } else { None };
+                        tr.log(Ev::Call { client: s as u32, op: "send", arg: j });
+                        let r = c.send_message::<RMsg>(RMsg { client: s as u32, seq: j, nested });
+                        match r {
+                            Ok(()) => 1,
+                            Err(MessagingErr::SendErr(back)) => (back.client == s as u32 && back.seq == j) as i64 - 1,
+                            Err(_) => -2,
+                        }
                     };
                     tr.log(Ev::Ret { client: s as u32, op: "send", arg: j, res });
                     continue;
